@@ -89,6 +89,7 @@ def fnv(s):
         h ^= b; h = (h * 0x100000001b3) & 0xffffffffffffffff
     return '%016x' % h
 allinst = []
+WIDTHS = {}
 for d in dumps:
     for g in json.load(open(d))['groups']:
         for i in g['instances']:
@@ -104,21 +105,33 @@ for _once in [0]:
                 groups[fid]["instances"].append(key); done = True; break
         if not done:
             unassigned.append((key, out))
+        WIDTHS.setdefault(key, set()).update(inst.get('widths', [0]))
 res = {"property": prop, "findings": [g for g in groups.values() if g["instances"]], "fixed": []}
 try:
     old = json.load(open('/verif/known_findings/%s.json' % prop)); res["fixed"] = old.get("fixed", [])
     # keep hand-written findings that this tool does not generate
     for f in old.get("findings", []):
-        if f["id"] not in groups: res["findings"].append(f)
+        if f["id"] not in groups:
+            if "instance_hashes" in f and "instances" not in f:
+                f["instances"] = {h: "0" for h in f.pop("instance_hashes")}
+            res["findings"].append(f)
 except FileNotFoundError:
     pass
 for f in res["findings"]:
     if "instances" in f:
         inst = sorted(set(f.pop("instances")))
         f["examples"] = sorted(inst, key=lambda k: (len(k), k))[:12]
-        f["instance_hashes"] = sorted(set(fnv(k) for k in inst))
+        def ranges(ws):
+            ws = sorted(ws); out = []; i = 0
+            while i < len(ws):
+                j = i
+                while j + 1 < len(ws) and ws[j + 1] == ws[j] + 1: j += 1
+                out.append(str(ws[i]) if i == j else '%d-%d' % (ws[i], ws[j])); i = j + 1
+            return ','.join(out)
+        f["instances"] = {fnv(k): ranges(WIDTHS.get(k, {0})) for k in inst}
+        f.pop("instance_hashes", None)
 json.dump(res, open('/verif/known_findings/%s.json' % prop, 'w'), indent=0)
-for f in res["findings"]: print(f["id"], len(f["instance_hashes"]))
+for f in res["findings"]: print(f["id"], len(f.get("instances", {})))
 print("UNASSIGNED", len(unassigned))
 seen = set()
 for key, out in unassigned:
